@@ -67,7 +67,7 @@ def run(ctx):
     rng = ctx.rng
     cases, meta = [], []
     kindsR = ['zero', 'tiny', 'eps', 'sqrteps', 'one', 'large']
-    n_per = {'SO3': ctx.scale(40, 1500), 'SE3': ctx.scale(24, 1000), 'RxSO3': ctx.scale(16, 800), 'Sim3': ctx.scale(12, 600)}
+    n_per = {'SO3': ctx.scale(240, 4000), 'SE3': ctx.scale(240, 4000), 'RxSO3': ctx.scale(180, 3000), 'Sim3': ctx.scale(240, 4000)}
     for g in GROUPS:
         alg = ALGS[GROUPS.index(g)]
         for t in range(n_per[g]):
@@ -105,12 +105,12 @@ def run(ctx):
             ctx.case((g, op, dname, tuple(X), tuple(a)), nontrivial=any(v != 0 for v in a), branch='%s-%s-%s' % (g, op, dname),
                      sample=dict(g=g, op=op, X=X, a=a, tail=tail, impl=o) if i % 37 == 3 else None)
             meta.append(dict(kind='grp', g=g, dtype=dname, X=X, a=a, op=op, tail=tail, impl=o))
-            epsl = '(1/4503599627370496)' if dname == 'float64' else '(1/8388608)'
+            epsl = 'E64' if dname == 'float64' else 'E32'
             fn = 'retr_l' if op == 'Retr' else 'add_group_l'
-            cases.append(dict(idx=i, expr='%s %s %d %s %s' % (fn, epsl, GID[g], rlist(X), rlist(a + tail)), comps=[(j, o[j], tl) for j, tl in tol_group(g, o, eps)]))
+            cases.append(dict(idx=i, expr='%s (NF:=@NF@) (TF:=TransIv) %s %d %s %s' % (fn, epsl, GID[g], ivlist(X), ivlist(a + tail)), comps=[(j, o[j], tl) for j, tl in tol_group(g, o, eps)]))
     # Jinvp and Jr (float64)
     for g in GROUPS:
-        for t in range(ctx.scale(12, 300) if g in ('SO3', 'SE3') else ctx.scale(8, 150)):
+        for t in range(ctx.scale(80, 1500)):
             dtype, eps = torch.float64, 2.0 ** -52
             X = [float(v) for v in torch.tensor(generic_elt(rng, g, torch, dtype), dtype=dtype).tolist()]
             if t % 4 == 1:
@@ -132,8 +132,8 @@ def run(ctx):
             ctx.case((g, 'Jinvp', tuple(X), tuple(p)), branch='%s-Jinvp' % g)
             meta.append(dict(kind='jinvp', g=g, dtype='float64', X=X, a=p, op='Jinvp', impl=o))
             sc = max(1.0, max(abs(v) for v in o))
-            cases.append(dict(idx=i, expr='jinvp (1/4503599627370496) %d %s %s' % (GID[g], rlist(X), rlist(p)), comps=[(j, o[j], K_SQRT * math.sqrt(eps) * sc) for j in range(len(o))]))
-    for t in range(ctx.scale(18, 400)):
+            cases.append(dict(idx=i, expr='jinvp (NF:=@NF@) (TF:=TransIv) E64 %d %s %s' % (GID[g], ivlist(X), ivlist(p)), comps=[(j, o[j], K_SQRT * math.sqrt(eps) * sc) for j in range(len(o))]))
+    for t in range(ctx.scale(120, 2000)):
         dtype, eps = torch.float64, 2.0 ** -52
         kind = kindsR[t % 6]
         x = [float(v) for v in torch.tensor(gen_x(rng, 'so3', eps, (kind, 'zero', 'zero')), dtype=dtype).tolist()]
@@ -148,8 +148,8 @@ def run(ctx):
         # 1-cos(theta) cancels in floats for tiny theta: coefficient error eps/theta^2 times |K| = theta
         th = math.sqrt(sum(v * v for v in x))
         tol = K_EPS * eps * max(1.0, (1.0 / th if th > eps else 1.0))
-        cases.append(dict(idx=i, expr='concat (so3_Jr (1/4503599627370496) %s)' % rlist(x), comps=[(j, o[j], tol) for j in range(9)]))
-    r = run_enclosure('C05', 'Model.LieGroup Model.LieExp Model.LieLog Model.LieJac Model.LieTangent', cases, prec=200, per_file=ctx.scale(6, 30), timeout_goal=300)
+        cases.append(dict(idx=i, expr='concat (so3_Jr (NF:=@NF@) (TF:=TransIv) E64 %s)' % ivlist(x), comps=[(j, o[j], tol) for j in range(9)]))
+    r = run_interval('C05', 'Model.LieGroup Model.LieExp Model.LieLog Model.LieJac Model.LieTangent', cases)
     for name, out in r['broken']:
         ctx.obligation_broken('correspondence-file:' + name, out)
     ctx.notes.append('enclosure: %d proved within tolerance, %d proved outside, %d undecided' % (len(r['ok']), len(set(i for i, _ in r['bad'])), len(r['undecided'])))
